@@ -28,6 +28,7 @@ type LoopSpec struct {
 	Invariants []Clause
 	Decreases  ast.Expr
 	Unroll     int
+	AssumeTerm string // termination argued informally in the contract (an assumption, listed in the evidence)
 }
 
 type FuncSpec struct {
@@ -292,6 +293,9 @@ func (db *SpecDB) loadFile(file string) error {
 						return errf("loop unroll: %v", err)
 					}
 					ls.Unroll = k
+				case "assume-terminates":
+					ls.AssumeTerm = body
+					db.Assumes = appendUnique(db.Assumes, fmt.Sprintf("%s loop %d terminates (not proved): %s", cur.Name, n, body))
 				default:
 					return errf("unknown loop clause %q", f[1])
 				}
